@@ -34,7 +34,7 @@ impl RunCfg {
             "cache_ad": self.cache_ad, "cache_data": self.cache_data, "pool": self.pool,
             "build": crate::seam::FLAVOUR, "backend": self.backend,
             "doc": { "id_pool": self.doc.id_pool, "nasty": self.doc.nasty, "floats": self.doc.floats,
-                     "max_elems": self.doc.max_elems, "kinds": self.doc.kinds, "nested": self.doc.nested, "bang_ids": self.doc.bang_ids },
+                     "max_elems": self.doc.max_elems, "kinds": self.doc.kinds, "nested": self.doc.nested, "bang_ids": self.doc.bang_ids, "root_ids": self.doc.root_ids },
         })
     }
     pub fn from_json(v: &Value) -> Result<RunCfg, String> {
@@ -54,7 +54,7 @@ impl RunCfg {
             cache_data: u("cache_data")? as u32,
             pool: u("pool").unwrap_or(4) as usize,
             backend: v.get("backend").and_then(|x| x.as_str()).unwrap_or("sim").to_string(),
-            doc: DocCfg { id_pool: du("id_pool"), nasty: db("nasty"), floats: db("floats"), max_elems: du("max_elems"), kinds: db("kinds"), nested: db("nested"), bang_ids: db("bang_ids") },
+            doc: DocCfg { id_pool: du("id_pool"), nasty: db("nasty"), floats: db("floats"), max_elems: du("max_elems"), kinds: db("kinds"), nested: db("nested"), bang_ids: db("bang_ids"), root_ids: db("root_ids") },
         })
     }
 }
@@ -570,6 +570,17 @@ impl World {
             }
             2 => {
                 let _ = self.call("in_conflict", || m.in_conflict())?;
+            }
+            w if w >= 16 => {
+                // read starting from any identifier the replica knows (deleted objects and array
+                // descriptors included)
+                let objs: Vec<String> = self.call("get_all_objects", || m.get_all_objects().into_iter().collect())?;
+                if !objs.is_empty() {
+                    let root = objs[(w as usize - 16) % objs.len()].clone();
+                    let _ = self.call("read_from", || m.read(Some(&root)).map(|_| ()).map_err(|e| e.to_string()))?;
+                    let _ = self.call("get_value_winner", || m.get_value(&root, None).map(|_| ()).map_err(|e| e.to_string()))?;
+                    self.bump("probe.read_from_object");
+                }
             }
             _ => {
                 let _ = self.call("read", || read_doc(m))?;
